@@ -24,7 +24,7 @@ PROP = {'drive': ['T2'], 'harness_files': ['area_t2.go'], 'modules': ['SfntV.Pro
                        'C04_stems_exact',
                        'C04_stems_accumulate_old',
                        'C04_glyph_sound_unguarded_fails'],
- 'areas': [('t2enc', 3000, 100000)],
+ 'areas': [('t2enc', 3000, 100000), ('t2font', 200, 5000)],
  'rule': 'distinct case lines (a float as n/2^k; a glyph: commands at scale 2^-20, stems, masks, width, '
          'default/nominal width; per glyph four lines: encodeArgs, edge proposals at every node, assembly of the '
          'Go-chosen path, specification round trip of the emitted bytes); non-trivial = number cases and glyphs '
@@ -63,6 +63,11 @@ PROP = {'drive': ['T2'], 'harness_files': ['area_t2.go'], 'modules': ['SfntV.Pro
              'about a quarter of them read back wrong (finding C04-bigstep, #20).',
              '#19 (default/nominal width in the Private DICT; selectWidths repaired in 7574c51) is outside '
              'encodeCharString and belongs to C13; dw/nw are inputs here.'],
+ 'font_level_note': 'D stream t2.fontw (area t2font): fonts with chosen width multisets (nominal == default != 0, '
+                    'nominal == 0, default == 0, all equal, single glyph, integral and fractional, explicit widths at '
+                    '+-107/+-108/+-1131/+-1132 from the most frequent width) are written by the real Font.Write; the '
+                    'driver reads the file independently (INDEX, Top DICT, Private DICT defaultWidthX/nominalWidthX, '
+                    'CharStrings) and runs Spec.T2.interp on every charstring: the widths found must be the glyphs\' widths.',
  'modelled_not_verified': ['float64 arithmetic of encodeNumber: modelled exactly on dyadic rationals n/2^k '
                            '(float subtraction x16-x and scaling by 65536 are exact for |x| < 2^36); the amd64 '
                            'result of an out-of-range float->int32/int16 conversion (0x80000000, low 16 bits) is '
